@@ -327,4 +327,516 @@ example :
 
 end interpreted
 
+
+/-! ### interpreted tie A, second part: Get / ContainsKey / Contains / GetLRU / RemoveFirst / RemoveLast / clear / ContainsValue /
+    Sort / ToBytes / ToObject — the transcribed statements (or loop facts) are the CodeModel's steps for all inputs.
+    For `Contains` the empty-key guard statement tests the descriptor's *blind* predicate (`{ d with refuse := d.blind }`). -/
+
+section interpreted2
+open HMap.IR
+variable {K V : Type} [DecidableEq K] [DecidableEq V]
+
+/-- LinkedMap.Get: the map is unchanged, the answer is the stored value iff the key is present -/
+theorem LinkedMap_get_interp (d : Desc K V) (hash : K → Nat) (thr : Nat → Nat) (m : LMap K V) (mode : Mode) (k : K) (v : V) :
+    run d hash thr mode k v Gen.C09IR.LinkedMap_get m = (m, some (if (m.tab.get hash k).isSome then Ret.cur else Ret.absent)) := by
+  rw [show Gen.C09IR.LinkedMap_get = canonLookup none .cur .absent from by decide]; exact canonLookup_correct d hash thr none .cur .absent m mode k v
+
+/-- IntKeyLinkedMap.Get: the map is unchanged, the answer is the stored value iff the key is present -/
+theorem IntKeyLinkedMap_get_interp (d : Desc K V) (hash : K → Nat) (thr : Nat → Nat) (m : LMap K V) (mode : Mode) (k : K) (v : V) :
+    run d hash thr mode k v Gen.C09IR.IntKeyLinkedMap_get m = (m, some (if (m.tab.get hash k).isSome then Ret.cur else Ret.absent)) := by
+  rw [show Gen.C09IR.IntKeyLinkedMap_get = canonLookup none .cur .absent from by decide]; exact canonLookup_correct d hash thr none .cur .absent m mode k v
+
+/-- LongKeyLinkedMap.Get: the map is unchanged, the answer is the stored value iff the key is present -/
+theorem LongKeyLinkedMap_get_interp (d : Desc K V) (hash : K → Nat) (thr : Nat → Nat) (m : LMap K V) (mode : Mode) (k : K) (v : V) :
+    run d hash thr mode k v Gen.C09IR.LongKeyLinkedMap_get m = (m, some (if (m.tab.get hash k).isSome then Ret.cur else Ret.absent)) := by
+  rw [show Gen.C09IR.LongKeyLinkedMap_get = canonLookup none .cur .absent from by decide]; exact canonLookup_correct d hash thr none .cur .absent m mode k v
+
+/-- StringKeyLinkedMap.Get: the map is unchanged, the answer is the stored value iff the key is present -/
+theorem StringKeyLinkedMap_get_interp (d : Desc K V) (hash : K → Nat) (thr : Nat → Nat) (m : LMap K V) (mode : Mode) (k : K) (v : V) :
+    run d hash thr mode k v Gen.C09IR.StringKeyLinkedMap_get m = (m, some (if (m.tab.get hash k).isSome then Ret.cur else Ret.absent)) := by
+  rw [show Gen.C09IR.StringKeyLinkedMap_get = canonLookup none .cur .absent from by decide]; exact canonLookup_correct d hash thr none .cur .absent m mode k v
+
+/-- IntIntLinkedMap.Get: the map is unchanged, the answer is the stored value iff the key is present -/
+theorem IntIntLinkedMap_get_interp (d : Desc K V) (hash : K → Nat) (thr : Nat → Nat) (m : LMap K V) (mode : Mode) (k : K) (v : V) :
+    run d hash thr mode k v Gen.C09IR.IntIntLinkedMap_get m = (m, some (if (m.tab.get hash k).isSome then Ret.cur else Ret.absent)) := by
+  rw [show Gen.C09IR.IntIntLinkedMap_get = canonLookup none .cur .absent from by decide]; exact canonLookup_correct d hash thr none .cur .absent m mode k v
+
+/-- IntFloatLinkedMap.Get: the map is unchanged, the answer is the stored value iff the key is present -/
+theorem IntFloatLinkedMap_get_interp (d : Desc K V) (hash : K → Nat) (thr : Nat → Nat) (m : LMap K V) (mode : Mode) (k : K) (v : V) :
+    run d hash thr mode k v Gen.C09IR.IntFloatLinkedMap_get m = (m, some (if (m.tab.get hash k).isSome then Ret.cur else Ret.absent)) := by
+  rw [show Gen.C09IR.IntFloatLinkedMap_get = canonLookup none .cur .absent from by decide]; exact canonLookup_correct d hash thr none .cur .absent m mode k v
+
+/-- LongFloatLinkedMap.Get: the map is unchanged, the answer is the stored value iff the key is present -/
+theorem LongFloatLinkedMap_get_interp (d : Desc K V) (hash : K → Nat) (thr : Nat → Nat) (m : LMap K V) (mode : Mode) (k : K) (v : V) :
+    run d hash thr mode k v Gen.C09IR.LongFloatLinkedMap_get m = (m, some (if (m.tab.get hash k).isSome then Ret.cur else Ret.absent)) := by
+  rw [show Gen.C09IR.LongFloatLinkedMap_get = canonLookup none .cur .absent from by decide]; exact canonLookup_correct d hash thr none .cur .absent m mode k v
+
+/-- LongLongLinkedMap.Get: the map is unchanged, the answer is the stored value iff the key is present -/
+theorem LongLongLinkedMap_get_interp (d : Desc K V) (hash : K → Nat) (thr : Nat → Nat) (m : LMap K V) (mode : Mode) (k : K) (v : V) :
+    run d hash thr mode k v Gen.C09IR.LongLongLinkedMap_get m = (m, some (if (m.tab.get hash k).isSome then Ret.cur else Ret.absent)) := by
+  rw [show Gen.C09IR.LongLongLinkedMap_get = canonLookup none .cur .absent from by decide]; exact canonLookup_correct d hash thr none .cur .absent m mode k v
+
+/-- StringIntLinkedMap.Get: the map is unchanged, the answer is the stored value iff the key is present -/
+theorem StringIntLinkedMap_get_interp (d : Desc K V) (hash : K → Nat) (thr : Nat → Nat) (m : LMap K V) (mode : Mode) (k : K) (v : V) :
+    run d hash thr mode k v Gen.C09IR.StringIntLinkedMap_get m = (m, some (if (m.tab.get hash k).isSome then Ret.cur else Ret.absent)) := by
+  rw [show Gen.C09IR.StringIntLinkedMap_get = canonLookup none .cur .absent from by decide]; exact canonLookup_correct d hash thr none .cur .absent m mode k v
+
+/-- StringLongLinkedMap.Get: the map is unchanged, the answer is the stored value iff the key is present -/
+theorem StringLongLinkedMap_get_interp (d : Desc K V) (hash : K → Nat) (thr : Nat → Nat) (m : LMap K V) (mode : Mode) (k : K) (v : V) :
+    run d hash thr mode k v Gen.C09IR.StringLongLinkedMap_get m = (m, some (if (m.tab.get hash k).isSome then Ret.cur else Ret.absent)) := by
+  rw [show Gen.C09IR.StringLongLinkedMap_get = canonLookup none .cur .absent from by decide]; exact canonLookup_correct d hash thr none .cur .absent m mode k v
+
+/-- LinkedMap.ContainsKey: unchanged map, presence (behind the empty-key guard where the source has one) -/
+theorem LinkedMap_contains_interp (d : Desc K V) (hash : K → Nat) (thr : Nat → Nat) (m : LMap K V) (mode : Mode) (k : K) (v : V) :
+    (guardHead Gen.C09IR.LinkedMap_contains = none ∨ guardHead Gen.C09IR.LinkedMap_contains = some Ret.boolF) ∧
+    run { d with refuse := d.blind } hash thr mode k v Gen.C09IR.LinkedMap_contains m =
+      (m, some (match guardHead Gen.C09IR.LinkedMap_contains with
+                | some r => if d.blind k then r else if (m.tab.get hash k).isSome then Ret.boolT else Ret.boolF
+                | none => if (m.tab.get hash k).isSome then Ret.boolT else Ret.boolF)) := by
+  refine ⟨by decide, ?_⟩
+  rw [show Gen.C09IR.LinkedMap_contains = canonLookup (guardHead Gen.C09IR.LinkedMap_contains) .boolT .boolF from by decide]
+  exact canonLookup_correct { d with refuse := d.blind } hash thr _ .boolT .boolF m mode k v
+
+/-- LinkedMap.RemoveFirst / RemoveLast: the state after is the CodeModel's -/
+theorem LinkedMap_removeEnd_interp (d : Desc K V) (hash : K → Nat) (thr : Nat → Nat) (m : LMap K V) (mode : Mode) (k : K) (v : V) :
+    (run d hash thr mode k v Gen.C09IR.LinkedMap_removeFirst m).1 = (LMap.step hash thr d m .removeFirst).1 ∧
+    (run d hash thr mode k v Gen.C09IR.LinkedMap_removeLast m).1 = (LMap.step hash thr d m .removeLast).1 := by
+  obtain ⟨r, hf, hl⟩ : ∃ r, Gen.C09IR.LinkedMap_removeFirst = canonRemoveEnd r .front ∧ Gen.C09IR.LinkedMap_removeLast = canonRemoveEnd r .back := by
+    first | exact ⟨.zero, by decide, by decide⟩ | exact ⟨.absent, by decide, by decide⟩
+  rw [hf, hl]; exact canonRemoveEnd_correct d hash thr r m mode k v
+
+/-- LinkedMap.clear -/
+theorem LinkedMap_clear_interp (d : Desc K V) (hash : K → Nat) (thr : Nat → Nat) (m : LMap K V) (mode : Mode) (k : K) (v : V) :
+    run d hash thr mode k v Gen.C09IR.LinkedMap_clear m = (m.clear, none) := by
+  rw [show Gen.C09IR.LinkedMap_clear = canonClear from by decide]; exact canonClear_correct d hash thr m mode k v
+
+/-- LinkedMap.Sort: collect, sort.Sort by key, clear, re-put with PUT_LAST -/
+theorem LinkedMap_sort_interp (d : Desc K V) (hash : K → Nat) (thr : Nat → Nat) (m : LMap K V) (lt : K → K → Bool) :
+    interpSort d hash thr Gen.C09IR.LinkedMap_sort m lt = m.sort hash thr d lt := by
+  rw [show Gen.C09IR.LinkedMap_sort = canonSort from by decide]; exact interpSort_correct d hash thr m lt
+
+/-- IntKeyLinkedMap.ContainsKey: unchanged map, presence (behind the empty-key guard where the source has one) -/
+theorem IntKeyLinkedMap_contains_interp (d : Desc K V) (hash : K → Nat) (thr : Nat → Nat) (m : LMap K V) (mode : Mode) (k : K) (v : V) :
+    (guardHead Gen.C09IR.IntKeyLinkedMap_contains = none ∨ guardHead Gen.C09IR.IntKeyLinkedMap_contains = some Ret.boolF) ∧
+    run { d with refuse := d.blind } hash thr mode k v Gen.C09IR.IntKeyLinkedMap_contains m =
+      (m, some (match guardHead Gen.C09IR.IntKeyLinkedMap_contains with
+                | some r => if d.blind k then r else if (m.tab.get hash k).isSome then Ret.boolT else Ret.boolF
+                | none => if (m.tab.get hash k).isSome then Ret.boolT else Ret.boolF)) := by
+  refine ⟨by decide, ?_⟩
+  rw [show Gen.C09IR.IntKeyLinkedMap_contains = canonLookup (guardHead Gen.C09IR.IntKeyLinkedMap_contains) .boolT .boolF from by decide]
+  exact canonLookup_correct { d with refuse := d.blind } hash thr _ .boolT .boolF m mode k v
+
+/-- IntKeyLinkedMap.RemoveFirst / RemoveLast: the state after is the CodeModel's -/
+theorem IntKeyLinkedMap_removeEnd_interp (d : Desc K V) (hash : K → Nat) (thr : Nat → Nat) (m : LMap K V) (mode : Mode) (k : K) (v : V) :
+    (run d hash thr mode k v Gen.C09IR.IntKeyLinkedMap_removeFirst m).1 = (LMap.step hash thr d m .removeFirst).1 ∧
+    (run d hash thr mode k v Gen.C09IR.IntKeyLinkedMap_removeLast m).1 = (LMap.step hash thr d m .removeLast).1 := by
+  obtain ⟨r, hf, hl⟩ : ∃ r, Gen.C09IR.IntKeyLinkedMap_removeFirst = canonRemoveEnd r .front ∧ Gen.C09IR.IntKeyLinkedMap_removeLast = canonRemoveEnd r .back := by
+    first | exact ⟨.zero, by decide, by decide⟩ | exact ⟨.absent, by decide, by decide⟩
+  rw [hf, hl]; exact canonRemoveEnd_correct d hash thr r m mode k v
+
+/-- IntKeyLinkedMap.clear -/
+theorem IntKeyLinkedMap_clear_interp (d : Desc K V) (hash : K → Nat) (thr : Nat → Nat) (m : LMap K V) (mode : Mode) (k : K) (v : V) :
+    run d hash thr mode k v Gen.C09IR.IntKeyLinkedMap_clear m = (m.clear, none) := by
+  rw [show Gen.C09IR.IntKeyLinkedMap_clear = canonClear from by decide]; exact canonClear_correct d hash thr m mode k v
+
+/-- IntKeyLinkedMap.Sort: collect, sort.Sort by key, clear, re-put with PUT_LAST -/
+theorem IntKeyLinkedMap_sort_interp (d : Desc K V) (hash : K → Nat) (thr : Nat → Nat) (m : LMap K V) (lt : K → K → Bool) :
+    interpSort d hash thr Gen.C09IR.IntKeyLinkedMap_sort m lt = m.sort hash thr d lt := by
+  rw [show Gen.C09IR.IntKeyLinkedMap_sort = canonSort from by decide]; exact interpSort_correct d hash thr m lt
+
+/-- LongKeyLinkedMap.ContainsKey: unchanged map, presence (behind the empty-key guard where the source has one) -/
+theorem LongKeyLinkedMap_contains_interp (d : Desc K V) (hash : K → Nat) (thr : Nat → Nat) (m : LMap K V) (mode : Mode) (k : K) (v : V) :
+    (guardHead Gen.C09IR.LongKeyLinkedMap_contains = none ∨ guardHead Gen.C09IR.LongKeyLinkedMap_contains = some Ret.boolF) ∧
+    run { d with refuse := d.blind } hash thr mode k v Gen.C09IR.LongKeyLinkedMap_contains m =
+      (m, some (match guardHead Gen.C09IR.LongKeyLinkedMap_contains with
+                | some r => if d.blind k then r else if (m.tab.get hash k).isSome then Ret.boolT else Ret.boolF
+                | none => if (m.tab.get hash k).isSome then Ret.boolT else Ret.boolF)) := by
+  refine ⟨by decide, ?_⟩
+  rw [show Gen.C09IR.LongKeyLinkedMap_contains = canonLookup (guardHead Gen.C09IR.LongKeyLinkedMap_contains) .boolT .boolF from by decide]
+  exact canonLookup_correct { d with refuse := d.blind } hash thr _ .boolT .boolF m mode k v
+
+/-- LongKeyLinkedMap.RemoveFirst / RemoveLast: the state after is the CodeModel's -/
+theorem LongKeyLinkedMap_removeEnd_interp (d : Desc K V) (hash : K → Nat) (thr : Nat → Nat) (m : LMap K V) (mode : Mode) (k : K) (v : V) :
+    (run d hash thr mode k v Gen.C09IR.LongKeyLinkedMap_removeFirst m).1 = (LMap.step hash thr d m .removeFirst).1 ∧
+    (run d hash thr mode k v Gen.C09IR.LongKeyLinkedMap_removeLast m).1 = (LMap.step hash thr d m .removeLast).1 := by
+  obtain ⟨r, hf, hl⟩ : ∃ r, Gen.C09IR.LongKeyLinkedMap_removeFirst = canonRemoveEnd r .front ∧ Gen.C09IR.LongKeyLinkedMap_removeLast = canonRemoveEnd r .back := by
+    first | exact ⟨.zero, by decide, by decide⟩ | exact ⟨.absent, by decide, by decide⟩
+  rw [hf, hl]; exact canonRemoveEnd_correct d hash thr r m mode k v
+
+/-- LongKeyLinkedMap.clear -/
+theorem LongKeyLinkedMap_clear_interp (d : Desc K V) (hash : K → Nat) (thr : Nat → Nat) (m : LMap K V) (mode : Mode) (k : K) (v : V) :
+    run d hash thr mode k v Gen.C09IR.LongKeyLinkedMap_clear m = (m.clear, none) := by
+  rw [show Gen.C09IR.LongKeyLinkedMap_clear = canonClear from by decide]; exact canonClear_correct d hash thr m mode k v
+
+/-- LongKeyLinkedMap.Sort: collect, sort.Sort by key, clear, re-put with PUT_LAST -/
+theorem LongKeyLinkedMap_sort_interp (d : Desc K V) (hash : K → Nat) (thr : Nat → Nat) (m : LMap K V) (lt : K → K → Bool) :
+    interpSort d hash thr Gen.C09IR.LongKeyLinkedMap_sort m lt = m.sort hash thr d lt := by
+  rw [show Gen.C09IR.LongKeyLinkedMap_sort = canonSort from by decide]; exact interpSort_correct d hash thr m lt
+
+/-- StringKeyLinkedMap.ContainsKey: unchanged map, presence (behind the empty-key guard where the source has one) -/
+theorem StringKeyLinkedMap_contains_interp (d : Desc K V) (hash : K → Nat) (thr : Nat → Nat) (m : LMap K V) (mode : Mode) (k : K) (v : V) :
+    (guardHead Gen.C09IR.StringKeyLinkedMap_contains = none ∨ guardHead Gen.C09IR.StringKeyLinkedMap_contains = some Ret.boolF) ∧
+    run { d with refuse := d.blind } hash thr mode k v Gen.C09IR.StringKeyLinkedMap_contains m =
+      (m, some (match guardHead Gen.C09IR.StringKeyLinkedMap_contains with
+                | some r => if d.blind k then r else if (m.tab.get hash k).isSome then Ret.boolT else Ret.boolF
+                | none => if (m.tab.get hash k).isSome then Ret.boolT else Ret.boolF)) := by
+  refine ⟨by decide, ?_⟩
+  rw [show Gen.C09IR.StringKeyLinkedMap_contains = canonLookup (guardHead Gen.C09IR.StringKeyLinkedMap_contains) .boolT .boolF from by decide]
+  exact canonLookup_correct { d with refuse := d.blind } hash thr _ .boolT .boolF m mode k v
+
+/-- StringKeyLinkedMap.RemoveFirst / RemoveLast: the state after is the CodeModel's -/
+theorem StringKeyLinkedMap_removeEnd_interp (d : Desc K V) (hash : K → Nat) (thr : Nat → Nat) (m : LMap K V) (mode : Mode) (k : K) (v : V) :
+    (run d hash thr mode k v Gen.C09IR.StringKeyLinkedMap_removeFirst m).1 = (LMap.step hash thr d m .removeFirst).1 ∧
+    (run d hash thr mode k v Gen.C09IR.StringKeyLinkedMap_removeLast m).1 = (LMap.step hash thr d m .removeLast).1 := by
+  obtain ⟨r, hf, hl⟩ : ∃ r, Gen.C09IR.StringKeyLinkedMap_removeFirst = canonRemoveEnd r .front ∧ Gen.C09IR.StringKeyLinkedMap_removeLast = canonRemoveEnd r .back := by
+    first | exact ⟨.zero, by decide, by decide⟩ | exact ⟨.absent, by decide, by decide⟩
+  rw [hf, hl]; exact canonRemoveEnd_correct d hash thr r m mode k v
+
+/-- StringKeyLinkedMap.clear -/
+theorem StringKeyLinkedMap_clear_interp (d : Desc K V) (hash : K → Nat) (thr : Nat → Nat) (m : LMap K V) (mode : Mode) (k : K) (v : V) :
+    run d hash thr mode k v Gen.C09IR.StringKeyLinkedMap_clear m = (m.clear, none) := by
+  rw [show Gen.C09IR.StringKeyLinkedMap_clear = canonClear from by decide]; exact canonClear_correct d hash thr m mode k v
+
+/-- StringKeyLinkedMap.Sort: collect, sort.Sort by key, clear, re-put with PUT_LAST -/
+theorem StringKeyLinkedMap_sort_interp (d : Desc K V) (hash : K → Nat) (thr : Nat → Nat) (m : LMap K V) (lt : K → K → Bool) :
+    interpSort d hash thr Gen.C09IR.StringKeyLinkedMap_sort m lt = m.sort hash thr d lt := by
+  rw [show Gen.C09IR.StringKeyLinkedMap_sort = canonSort from by decide]; exact interpSort_correct d hash thr m lt
+
+/-- IntIntLinkedMap.ContainsKey: unchanged map, presence (behind the empty-key guard where the source has one) -/
+theorem IntIntLinkedMap_contains_interp (d : Desc K V) (hash : K → Nat) (thr : Nat → Nat) (m : LMap K V) (mode : Mode) (k : K) (v : V) :
+    (guardHead Gen.C09IR.IntIntLinkedMap_contains = none ∨ guardHead Gen.C09IR.IntIntLinkedMap_contains = some Ret.boolF) ∧
+    run { d with refuse := d.blind } hash thr mode k v Gen.C09IR.IntIntLinkedMap_contains m =
+      (m, some (match guardHead Gen.C09IR.IntIntLinkedMap_contains with
+                | some r => if d.blind k then r else if (m.tab.get hash k).isSome then Ret.boolT else Ret.boolF
+                | none => if (m.tab.get hash k).isSome then Ret.boolT else Ret.boolF)) := by
+  refine ⟨by decide, ?_⟩
+  rw [show Gen.C09IR.IntIntLinkedMap_contains = canonLookup (guardHead Gen.C09IR.IntIntLinkedMap_contains) .boolT .boolF from by decide]
+  exact canonLookup_correct { d with refuse := d.blind } hash thr _ .boolT .boolF m mode k v
+
+/-- IntIntLinkedMap.RemoveFirst / RemoveLast: the state after is the CodeModel's -/
+theorem IntIntLinkedMap_removeEnd_interp (d : Desc K V) (hash : K → Nat) (thr : Nat → Nat) (m : LMap K V) (mode : Mode) (k : K) (v : V) :
+    (run d hash thr mode k v Gen.C09IR.IntIntLinkedMap_removeFirst m).1 = (LMap.step hash thr d m .removeFirst).1 ∧
+    (run d hash thr mode k v Gen.C09IR.IntIntLinkedMap_removeLast m).1 = (LMap.step hash thr d m .removeLast).1 := by
+  obtain ⟨r, hf, hl⟩ : ∃ r, Gen.C09IR.IntIntLinkedMap_removeFirst = canonRemoveEnd r .front ∧ Gen.C09IR.IntIntLinkedMap_removeLast = canonRemoveEnd r .back := by
+    first | exact ⟨.zero, by decide, by decide⟩ | exact ⟨.absent, by decide, by decide⟩
+  rw [hf, hl]; exact canonRemoveEnd_correct d hash thr r m mode k v
+
+/-- IntIntLinkedMap.clear -/
+theorem IntIntLinkedMap_clear_interp (d : Desc K V) (hash : K → Nat) (thr : Nat → Nat) (m : LMap K V) (mode : Mode) (k : K) (v : V) :
+    run d hash thr mode k v Gen.C09IR.IntIntLinkedMap_clear m = (m.clear, none) := by
+  rw [show Gen.C09IR.IntIntLinkedMap_clear = canonClear from by decide]; exact canonClear_correct d hash thr m mode k v
+
+/-- IntIntLinkedMap.Sort: collect, sort.Sort by key, clear, re-put with PUT_LAST -/
+theorem IntIntLinkedMap_sort_interp (d : Desc K V) (hash : K → Nat) (thr : Nat → Nat) (m : LMap K V) (lt : K → K → Bool) :
+    interpSort d hash thr Gen.C09IR.IntIntLinkedMap_sort m lt = m.sort hash thr d lt := by
+  rw [show Gen.C09IR.IntIntLinkedMap_sort = canonSort from by decide]; exact interpSort_correct d hash thr m lt
+
+/-- IntFloatLinkedMap.ContainsKey: unchanged map, presence (behind the empty-key guard where the source has one) -/
+theorem IntFloatLinkedMap_contains_interp (d : Desc K V) (hash : K → Nat) (thr : Nat → Nat) (m : LMap K V) (mode : Mode) (k : K) (v : V) :
+    (guardHead Gen.C09IR.IntFloatLinkedMap_contains = none ∨ guardHead Gen.C09IR.IntFloatLinkedMap_contains = some Ret.boolF) ∧
+    run { d with refuse := d.blind } hash thr mode k v Gen.C09IR.IntFloatLinkedMap_contains m =
+      (m, some (match guardHead Gen.C09IR.IntFloatLinkedMap_contains with
+                | some r => if d.blind k then r else if (m.tab.get hash k).isSome then Ret.boolT else Ret.boolF
+                | none => if (m.tab.get hash k).isSome then Ret.boolT else Ret.boolF)) := by
+  refine ⟨by decide, ?_⟩
+  rw [show Gen.C09IR.IntFloatLinkedMap_contains = canonLookup (guardHead Gen.C09IR.IntFloatLinkedMap_contains) .boolT .boolF from by decide]
+  exact canonLookup_correct { d with refuse := d.blind } hash thr _ .boolT .boolF m mode k v
+
+/-- IntFloatLinkedMap.RemoveFirst / RemoveLast: the state after is the CodeModel's -/
+theorem IntFloatLinkedMap_removeEnd_interp (d : Desc K V) (hash : K → Nat) (thr : Nat → Nat) (m : LMap K V) (mode : Mode) (k : K) (v : V) :
+    (run d hash thr mode k v Gen.C09IR.IntFloatLinkedMap_removeFirst m).1 = (LMap.step hash thr d m .removeFirst).1 ∧
+    (run d hash thr mode k v Gen.C09IR.IntFloatLinkedMap_removeLast m).1 = (LMap.step hash thr d m .removeLast).1 := by
+  obtain ⟨r, hf, hl⟩ : ∃ r, Gen.C09IR.IntFloatLinkedMap_removeFirst = canonRemoveEnd r .front ∧ Gen.C09IR.IntFloatLinkedMap_removeLast = canonRemoveEnd r .back := by
+    first | exact ⟨.zero, by decide, by decide⟩ | exact ⟨.absent, by decide, by decide⟩
+  rw [hf, hl]; exact canonRemoveEnd_correct d hash thr r m mode k v
+
+/-- IntFloatLinkedMap.clear -/
+theorem IntFloatLinkedMap_clear_interp (d : Desc K V) (hash : K → Nat) (thr : Nat → Nat) (m : LMap K V) (mode : Mode) (k : K) (v : V) :
+    run d hash thr mode k v Gen.C09IR.IntFloatLinkedMap_clear m = (m.clear, none) := by
+  rw [show Gen.C09IR.IntFloatLinkedMap_clear = canonClear from by decide]; exact canonClear_correct d hash thr m mode k v
+
+/-- IntFloatLinkedMap.Sort: collect, sort.Sort by key, clear, re-put with PUT_LAST -/
+theorem IntFloatLinkedMap_sort_interp (d : Desc K V) (hash : K → Nat) (thr : Nat → Nat) (m : LMap K V) (lt : K → K → Bool) :
+    interpSort d hash thr Gen.C09IR.IntFloatLinkedMap_sort m lt = m.sort hash thr d lt := by
+  rw [show Gen.C09IR.IntFloatLinkedMap_sort = canonSort from by decide]; exact interpSort_correct d hash thr m lt
+
+/-- LongFloatLinkedMap.ContainsKey: unchanged map, presence (behind the empty-key guard where the source has one) -/
+theorem LongFloatLinkedMap_contains_interp (d : Desc K V) (hash : K → Nat) (thr : Nat → Nat) (m : LMap K V) (mode : Mode) (k : K) (v : V) :
+    (guardHead Gen.C09IR.LongFloatLinkedMap_contains = none ∨ guardHead Gen.C09IR.LongFloatLinkedMap_contains = some Ret.boolF) ∧
+    run { d with refuse := d.blind } hash thr mode k v Gen.C09IR.LongFloatLinkedMap_contains m =
+      (m, some (match guardHead Gen.C09IR.LongFloatLinkedMap_contains with
+                | some r => if d.blind k then r else if (m.tab.get hash k).isSome then Ret.boolT else Ret.boolF
+                | none => if (m.tab.get hash k).isSome then Ret.boolT else Ret.boolF)) := by
+  refine ⟨by decide, ?_⟩
+  rw [show Gen.C09IR.LongFloatLinkedMap_contains = canonLookup (guardHead Gen.C09IR.LongFloatLinkedMap_contains) .boolT .boolF from by decide]
+  exact canonLookup_correct { d with refuse := d.blind } hash thr _ .boolT .boolF m mode k v
+
+/-- LongFloatLinkedMap.RemoveFirst / RemoveLast: the state after is the CodeModel's -/
+theorem LongFloatLinkedMap_removeEnd_interp (d : Desc K V) (hash : K → Nat) (thr : Nat → Nat) (m : LMap K V) (mode : Mode) (k : K) (v : V) :
+    (run d hash thr mode k v Gen.C09IR.LongFloatLinkedMap_removeFirst m).1 = (LMap.step hash thr d m .removeFirst).1 ∧
+    (run d hash thr mode k v Gen.C09IR.LongFloatLinkedMap_removeLast m).1 = (LMap.step hash thr d m .removeLast).1 := by
+  obtain ⟨r, hf, hl⟩ : ∃ r, Gen.C09IR.LongFloatLinkedMap_removeFirst = canonRemoveEnd r .front ∧ Gen.C09IR.LongFloatLinkedMap_removeLast = canonRemoveEnd r .back := by
+    first | exact ⟨.zero, by decide, by decide⟩ | exact ⟨.absent, by decide, by decide⟩
+  rw [hf, hl]; exact canonRemoveEnd_correct d hash thr r m mode k v
+
+/-- LongFloatLinkedMap.clear -/
+theorem LongFloatLinkedMap_clear_interp (d : Desc K V) (hash : K → Nat) (thr : Nat → Nat) (m : LMap K V) (mode : Mode) (k : K) (v : V) :
+    run d hash thr mode k v Gen.C09IR.LongFloatLinkedMap_clear m = (m.clear, none) := by
+  rw [show Gen.C09IR.LongFloatLinkedMap_clear = canonClear from by decide]; exact canonClear_correct d hash thr m mode k v
+
+/-- LongFloatLinkedMap.Sort: collect, sort.Sort by key, clear, re-put with PUT_LAST -/
+theorem LongFloatLinkedMap_sort_interp (d : Desc K V) (hash : K → Nat) (thr : Nat → Nat) (m : LMap K V) (lt : K → K → Bool) :
+    interpSort d hash thr Gen.C09IR.LongFloatLinkedMap_sort m lt = m.sort hash thr d lt := by
+  rw [show Gen.C09IR.LongFloatLinkedMap_sort = canonSort from by decide]; exact interpSort_correct d hash thr m lt
+
+/-- LongLongLinkedMap.ContainsKey: unchanged map, presence (behind the empty-key guard where the source has one) -/
+theorem LongLongLinkedMap_contains_interp (d : Desc K V) (hash : K → Nat) (thr : Nat → Nat) (m : LMap K V) (mode : Mode) (k : K) (v : V) :
+    (guardHead Gen.C09IR.LongLongLinkedMap_contains = none ∨ guardHead Gen.C09IR.LongLongLinkedMap_contains = some Ret.boolF) ∧
+    run { d with refuse := d.blind } hash thr mode k v Gen.C09IR.LongLongLinkedMap_contains m =
+      (m, some (match guardHead Gen.C09IR.LongLongLinkedMap_contains with
+                | some r => if d.blind k then r else if (m.tab.get hash k).isSome then Ret.boolT else Ret.boolF
+                | none => if (m.tab.get hash k).isSome then Ret.boolT else Ret.boolF)) := by
+  refine ⟨by decide, ?_⟩
+  rw [show Gen.C09IR.LongLongLinkedMap_contains = canonLookup (guardHead Gen.C09IR.LongLongLinkedMap_contains) .boolT .boolF from by decide]
+  exact canonLookup_correct { d with refuse := d.blind } hash thr _ .boolT .boolF m mode k v
+
+/-- LongLongLinkedMap.RemoveFirst / RemoveLast: the state after is the CodeModel's -/
+theorem LongLongLinkedMap_removeEnd_interp (d : Desc K V) (hash : K → Nat) (thr : Nat → Nat) (m : LMap K V) (mode : Mode) (k : K) (v : V) :
+    (run d hash thr mode k v Gen.C09IR.LongLongLinkedMap_removeFirst m).1 = (LMap.step hash thr d m .removeFirst).1 ∧
+    (run d hash thr mode k v Gen.C09IR.LongLongLinkedMap_removeLast m).1 = (LMap.step hash thr d m .removeLast).1 := by
+  obtain ⟨r, hf, hl⟩ : ∃ r, Gen.C09IR.LongLongLinkedMap_removeFirst = canonRemoveEnd r .front ∧ Gen.C09IR.LongLongLinkedMap_removeLast = canonRemoveEnd r .back := by
+    first | exact ⟨.zero, by decide, by decide⟩ | exact ⟨.absent, by decide, by decide⟩
+  rw [hf, hl]; exact canonRemoveEnd_correct d hash thr r m mode k v
+
+/-- LongLongLinkedMap.clear -/
+theorem LongLongLinkedMap_clear_interp (d : Desc K V) (hash : K → Nat) (thr : Nat → Nat) (m : LMap K V) (mode : Mode) (k : K) (v : V) :
+    run d hash thr mode k v Gen.C09IR.LongLongLinkedMap_clear m = (m.clear, none) := by
+  rw [show Gen.C09IR.LongLongLinkedMap_clear = canonClear from by decide]; exact canonClear_correct d hash thr m mode k v
+
+/-- LongLongLinkedMap.Sort: collect, sort.Sort by key, clear, re-put with PUT_LAST -/
+theorem LongLongLinkedMap_sort_interp (d : Desc K V) (hash : K → Nat) (thr : Nat → Nat) (m : LMap K V) (lt : K → K → Bool) :
+    interpSort d hash thr Gen.C09IR.LongLongLinkedMap_sort m lt = m.sort hash thr d lt := by
+  rw [show Gen.C09IR.LongLongLinkedMap_sort = canonSort from by decide]; exact interpSort_correct d hash thr m lt
+
+/-- StringIntLinkedMap.ContainsKey: unchanged map, presence (behind the empty-key guard where the source has one) -/
+theorem StringIntLinkedMap_contains_interp (d : Desc K V) (hash : K → Nat) (thr : Nat → Nat) (m : LMap K V) (mode : Mode) (k : K) (v : V) :
+    (guardHead Gen.C09IR.StringIntLinkedMap_contains = none ∨ guardHead Gen.C09IR.StringIntLinkedMap_contains = some Ret.boolF) ∧
+    run { d with refuse := d.blind } hash thr mode k v Gen.C09IR.StringIntLinkedMap_contains m =
+      (m, some (match guardHead Gen.C09IR.StringIntLinkedMap_contains with
+                | some r => if d.blind k then r else if (m.tab.get hash k).isSome then Ret.boolT else Ret.boolF
+                | none => if (m.tab.get hash k).isSome then Ret.boolT else Ret.boolF)) := by
+  refine ⟨by decide, ?_⟩
+  rw [show Gen.C09IR.StringIntLinkedMap_contains = canonLookup (guardHead Gen.C09IR.StringIntLinkedMap_contains) .boolT .boolF from by decide]
+  exact canonLookup_correct { d with refuse := d.blind } hash thr _ .boolT .boolF m mode k v
+
+/-- StringIntLinkedMap.RemoveFirst / RemoveLast: the state after is the CodeModel's -/
+theorem StringIntLinkedMap_removeEnd_interp (d : Desc K V) (hash : K → Nat) (thr : Nat → Nat) (m : LMap K V) (mode : Mode) (k : K) (v : V) :
+    (run d hash thr mode k v Gen.C09IR.StringIntLinkedMap_removeFirst m).1 = (LMap.step hash thr d m .removeFirst).1 ∧
+    (run d hash thr mode k v Gen.C09IR.StringIntLinkedMap_removeLast m).1 = (LMap.step hash thr d m .removeLast).1 := by
+  obtain ⟨r, hf, hl⟩ : ∃ r, Gen.C09IR.StringIntLinkedMap_removeFirst = canonRemoveEnd r .front ∧ Gen.C09IR.StringIntLinkedMap_removeLast = canonRemoveEnd r .back := by
+    first | exact ⟨.zero, by decide, by decide⟩ | exact ⟨.absent, by decide, by decide⟩
+  rw [hf, hl]; exact canonRemoveEnd_correct d hash thr r m mode k v
+
+/-- StringIntLinkedMap.clear -/
+theorem StringIntLinkedMap_clear_interp (d : Desc K V) (hash : K → Nat) (thr : Nat → Nat) (m : LMap K V) (mode : Mode) (k : K) (v : V) :
+    run d hash thr mode k v Gen.C09IR.StringIntLinkedMap_clear m = (m.clear, none) := by
+  rw [show Gen.C09IR.StringIntLinkedMap_clear = canonClear from by decide]; exact canonClear_correct d hash thr m mode k v
+
+/-- StringIntLinkedMap.Sort: collect, sort.Sort by key, clear, re-put with PUT_LAST -/
+theorem StringIntLinkedMap_sort_interp (d : Desc K V) (hash : K → Nat) (thr : Nat → Nat) (m : LMap K V) (lt : K → K → Bool) :
+    interpSort d hash thr Gen.C09IR.StringIntLinkedMap_sort m lt = m.sort hash thr d lt := by
+  rw [show Gen.C09IR.StringIntLinkedMap_sort = canonSort from by decide]; exact interpSort_correct d hash thr m lt
+
+/-- StringLongLinkedMap.ContainsKey: unchanged map, presence (behind the empty-key guard where the source has one) -/
+theorem StringLongLinkedMap_contains_interp (d : Desc K V) (hash : K → Nat) (thr : Nat → Nat) (m : LMap K V) (mode : Mode) (k : K) (v : V) :
+    (guardHead Gen.C09IR.StringLongLinkedMap_contains = none ∨ guardHead Gen.C09IR.StringLongLinkedMap_contains = some Ret.boolF) ∧
+    run { d with refuse := d.blind } hash thr mode k v Gen.C09IR.StringLongLinkedMap_contains m =
+      (m, some (match guardHead Gen.C09IR.StringLongLinkedMap_contains with
+                | some r => if d.blind k then r else if (m.tab.get hash k).isSome then Ret.boolT else Ret.boolF
+                | none => if (m.tab.get hash k).isSome then Ret.boolT else Ret.boolF)) := by
+  refine ⟨by decide, ?_⟩
+  rw [show Gen.C09IR.StringLongLinkedMap_contains = canonLookup (guardHead Gen.C09IR.StringLongLinkedMap_contains) .boolT .boolF from by decide]
+  exact canonLookup_correct { d with refuse := d.blind } hash thr _ .boolT .boolF m mode k v
+
+/-- StringLongLinkedMap.RemoveFirst / RemoveLast: the state after is the CodeModel's -/
+theorem StringLongLinkedMap_removeEnd_interp (d : Desc K V) (hash : K → Nat) (thr : Nat → Nat) (m : LMap K V) (mode : Mode) (k : K) (v : V) :
+    (run d hash thr mode k v Gen.C09IR.StringLongLinkedMap_removeFirst m).1 = (LMap.step hash thr d m .removeFirst).1 ∧
+    (run d hash thr mode k v Gen.C09IR.StringLongLinkedMap_removeLast m).1 = (LMap.step hash thr d m .removeLast).1 := by
+  obtain ⟨r, hf, hl⟩ : ∃ r, Gen.C09IR.StringLongLinkedMap_removeFirst = canonRemoveEnd r .front ∧ Gen.C09IR.StringLongLinkedMap_removeLast = canonRemoveEnd r .back := by
+    first | exact ⟨.zero, by decide, by decide⟩ | exact ⟨.absent, by decide, by decide⟩
+  rw [hf, hl]; exact canonRemoveEnd_correct d hash thr r m mode k v
+
+/-- StringLongLinkedMap.clear -/
+theorem StringLongLinkedMap_clear_interp (d : Desc K V) (hash : K → Nat) (thr : Nat → Nat) (m : LMap K V) (mode : Mode) (k : K) (v : V) :
+    run d hash thr mode k v Gen.C09IR.StringLongLinkedMap_clear m = (m.clear, none) := by
+  rw [show Gen.C09IR.StringLongLinkedMap_clear = canonClear from by decide]; exact canonClear_correct d hash thr m mode k v
+
+/-- StringLongLinkedMap.Sort: collect, sort.Sort by key, clear, re-put with PUT_LAST -/
+theorem StringLongLinkedMap_sort_interp (d : Desc K V) (hash : K → Nat) (thr : Nat → Nat) (m : LMap K V) (lt : K → K → Bool) :
+    interpSort d hash thr Gen.C09IR.StringLongLinkedMap_sort m lt = m.sort hash thr d lt := by
+  rw [show Gen.C09IR.StringLongLinkedMap_sort = canonSort from by decide]; exact interpSort_correct d hash thr m lt
+
+/-- LinkedSet.Contains: unchanged map, presence (behind the empty-key guard where the source has one) -/
+theorem LinkedSet_contains_interp (d : Desc K V) (hash : K → Nat) (thr : Nat → Nat) (m : LMap K V) (mode : Mode) (k : K) (v : V) :
+    (guardHead Gen.C09IR.LinkedSet_contains = none ∨ guardHead Gen.C09IR.LinkedSet_contains = some Ret.boolF) ∧
+    run { d with refuse := d.blind } hash thr mode k v Gen.C09IR.LinkedSet_contains m =
+      (m, some (match guardHead Gen.C09IR.LinkedSet_contains with
+                | some r => if d.blind k then r else if (m.tab.get hash k).isSome then Ret.boolT else Ret.boolF
+                | none => if (m.tab.get hash k).isSome then Ret.boolT else Ret.boolF)) := by
+  refine ⟨by decide, ?_⟩
+  rw [show Gen.C09IR.LinkedSet_contains = canonLookup (guardHead Gen.C09IR.LinkedSet_contains) .boolT .boolF from by decide]
+  exact canonLookup_correct { d with refuse := d.blind } hash thr _ .boolT .boolF m mode k v
+
+/-- LinkedSet.RemoveFirst / RemoveLast: the state after is the CodeModel's -/
+theorem LinkedSet_removeEnd_interp (d : Desc K V) (hash : K → Nat) (thr : Nat → Nat) (m : LMap K V) (mode : Mode) (k : K) (v : V) :
+    (run d hash thr mode k v Gen.C09IR.LinkedSet_removeFirst m).1 = (LMap.step hash thr d m .removeFirst).1 ∧
+    (run d hash thr mode k v Gen.C09IR.LinkedSet_removeLast m).1 = (LMap.step hash thr d m .removeLast).1 := by
+  obtain ⟨r, hf, hl⟩ : ∃ r, Gen.C09IR.LinkedSet_removeFirst = canonRemoveEnd r .front ∧ Gen.C09IR.LinkedSet_removeLast = canonRemoveEnd r .back := by
+    first | exact ⟨.zero, by decide, by decide⟩ | exact ⟨.absent, by decide, by decide⟩
+  rw [hf, hl]; exact canonRemoveEnd_correct d hash thr r m mode k v
+
+/-- LinkedSet.clear -/
+theorem LinkedSet_clear_interp (d : Desc K V) (hash : K → Nat) (thr : Nat → Nat) (m : LMap K V) (mode : Mode) (k : K) (v : V) :
+    run d hash thr mode k v Gen.C09IR.LinkedSet_clear m = (m.clear, none) := by
+  rw [show Gen.C09IR.LinkedSet_clear = canonClear from by decide]; exact canonClear_correct d hash thr m mode k v
+
+/-- LinkedSet.Sort: collect, sort.Sort by key, clear, re-put with PUT_LAST -/
+theorem LinkedSet_sort_interp (d : Desc K V) (hash : K → Nat) (thr : Nat → Nat) (m : LMap K V) (lt : K → K → Bool) :
+    interpSort d hash thr Gen.C09IR.LinkedSet_sort m lt = m.sort hash thr d lt := by
+  rw [show Gen.C09IR.LinkedSet_sort = canonSort from by decide]; exact interpSort_correct d hash thr m lt
+
+/-- IntLinkedSet.Contains: unchanged map, presence (behind the empty-key guard where the source has one) -/
+theorem IntLinkedSet_contains_interp (d : Desc K V) (hash : K → Nat) (thr : Nat → Nat) (m : LMap K V) (mode : Mode) (k : K) (v : V) :
+    (guardHead Gen.C09IR.IntLinkedSet_contains = none ∨ guardHead Gen.C09IR.IntLinkedSet_contains = some Ret.boolF) ∧
+    run { d with refuse := d.blind } hash thr mode k v Gen.C09IR.IntLinkedSet_contains m =
+      (m, some (match guardHead Gen.C09IR.IntLinkedSet_contains with
+                | some r => if d.blind k then r else if (m.tab.get hash k).isSome then Ret.boolT else Ret.boolF
+                | none => if (m.tab.get hash k).isSome then Ret.boolT else Ret.boolF)) := by
+  refine ⟨by decide, ?_⟩
+  rw [show Gen.C09IR.IntLinkedSet_contains = canonLookup (guardHead Gen.C09IR.IntLinkedSet_contains) .boolT .boolF from by decide]
+  exact canonLookup_correct { d with refuse := d.blind } hash thr _ .boolT .boolF m mode k v
+
+/-- IntLinkedSet.RemoveFirst / RemoveLast: the state after is the CodeModel's -/
+theorem IntLinkedSet_removeEnd_interp (d : Desc K V) (hash : K → Nat) (thr : Nat → Nat) (m : LMap K V) (mode : Mode) (k : K) (v : V) :
+    (run d hash thr mode k v Gen.C09IR.IntLinkedSet_removeFirst m).1 = (LMap.step hash thr d m .removeFirst).1 ∧
+    (run d hash thr mode k v Gen.C09IR.IntLinkedSet_removeLast m).1 = (LMap.step hash thr d m .removeLast).1 := by
+  obtain ⟨r, hf, hl⟩ : ∃ r, Gen.C09IR.IntLinkedSet_removeFirst = canonRemoveEnd r .front ∧ Gen.C09IR.IntLinkedSet_removeLast = canonRemoveEnd r .back := by
+    first | exact ⟨.zero, by decide, by decide⟩ | exact ⟨.absent, by decide, by decide⟩
+  rw [hf, hl]; exact canonRemoveEnd_correct d hash thr r m mode k v
+
+/-- IntLinkedSet.clear -/
+theorem IntLinkedSet_clear_interp (d : Desc K V) (hash : K → Nat) (thr : Nat → Nat) (m : LMap K V) (mode : Mode) (k : K) (v : V) :
+    run d hash thr mode k v Gen.C09IR.IntLinkedSet_clear m = (m.clear, none) := by
+  rw [show Gen.C09IR.IntLinkedSet_clear = canonClear from by decide]; exact canonClear_correct d hash thr m mode k v
+
+/-- IntLinkedSet.Sort: collect, sort.Sort by key, clear, re-put with PUT_LAST -/
+theorem IntLinkedSet_sort_interp (d : Desc K V) (hash : K → Nat) (thr : Nat → Nat) (m : LMap K V) (lt : K → K → Bool) :
+    interpSort d hash thr Gen.C09IR.IntLinkedSet_sort m lt = m.sort hash thr d lt := by
+  rw [show Gen.C09IR.IntLinkedSet_sort = canonSort from by decide]; exact interpSort_correct d hash thr m lt
+
+/-- StringLinkedSet.Contains: unchanged map, presence (behind the empty-key guard where the source has one) -/
+theorem StringLinkedSet_contains_interp (d : Desc K V) (hash : K → Nat) (thr : Nat → Nat) (m : LMap K V) (mode : Mode) (k : K) (v : V) :
+    (guardHead Gen.C09IR.StringLinkedSet_contains = none ∨ guardHead Gen.C09IR.StringLinkedSet_contains = some Ret.boolF) ∧
+    run { d with refuse := d.blind } hash thr mode k v Gen.C09IR.StringLinkedSet_contains m =
+      (m, some (match guardHead Gen.C09IR.StringLinkedSet_contains with
+                | some r => if d.blind k then r else if (m.tab.get hash k).isSome then Ret.boolT else Ret.boolF
+                | none => if (m.tab.get hash k).isSome then Ret.boolT else Ret.boolF)) := by
+  refine ⟨by decide, ?_⟩
+  rw [show Gen.C09IR.StringLinkedSet_contains = canonLookup (guardHead Gen.C09IR.StringLinkedSet_contains) .boolT .boolF from by decide]
+  exact canonLookup_correct { d with refuse := d.blind } hash thr _ .boolT .boolF m mode k v
+
+/-- StringLinkedSet.RemoveFirst / RemoveLast: the state after is the CodeModel's -/
+theorem StringLinkedSet_removeEnd_interp (d : Desc K V) (hash : K → Nat) (thr : Nat → Nat) (m : LMap K V) (mode : Mode) (k : K) (v : V) :
+    (run d hash thr mode k v Gen.C09IR.StringLinkedSet_removeFirst m).1 = (LMap.step hash thr d m .removeFirst).1 ∧
+    (run d hash thr mode k v Gen.C09IR.StringLinkedSet_removeLast m).1 = (LMap.step hash thr d m .removeLast).1 := by
+  obtain ⟨r, hf, hl⟩ : ∃ r, Gen.C09IR.StringLinkedSet_removeFirst = canonRemoveEnd r .front ∧ Gen.C09IR.StringLinkedSet_removeLast = canonRemoveEnd r .back := by
+    first | exact ⟨.zero, by decide, by decide⟩ | exact ⟨.absent, by decide, by decide⟩
+  rw [hf, hl]; exact canonRemoveEnd_correct d hash thr r m mode k v
+
+/-- StringLinkedSet.clear -/
+theorem StringLinkedSet_clear_interp (d : Desc K V) (hash : K → Nat) (thr : Nat → Nat) (m : LMap K V) (mode : Mode) (k : K) (v : V) :
+    run d hash thr mode k v Gen.C09IR.StringLinkedSet_clear m = (m.clear, none) := by
+  rw [show Gen.C09IR.StringLinkedSet_clear = canonClear from by decide]; exact canonClear_correct d hash thr m mode k v
+
+/-- StringLinkedSet.Sort: collect, sort.Sort by key, clear, re-put with PUT_LAST -/
+theorem StringLinkedSet_sort_interp (d : Desc K V) (hash : K → Nat) (thr : Nat → Nat) (m : LMap K V) (lt : K → K → Bool) :
+    interpSort d hash thr Gen.C09IR.StringLinkedSet_sort m lt = m.sort hash thr d lt := by
+  rw [show Gen.C09IR.StringLinkedSet_sort = canonSort from by decide]; exact interpSort_correct d hash thr m lt
+
+/-- IntKeyLinkedMap.GetLRU -/
+theorem IntKeyLinkedMap_getLRU_interp (d : Desc K V) (hash : K → Nat) (thr : Nat → Nat) (m : LMap K V) (mode : Mode) (k : K) (v : V) :
+    (run d hash thr mode k v Gen.C09IR.IntKeyLinkedMap_getLRU m).1 = (LMap.step hash thr d m (.getLRU k)).1 := by
+  rw [show Gen.C09IR.IntKeyLinkedMap_getLRU = canonGetLRU from by decide, canonGetLRU_correct]
+  simp only [LMap.step, LMap.get]
+  cases m.tab.get hash k <;> rfl
+
+/-- IntKeyLinkedMap.ContainsValue: the bucket loop visits every bucket exactly once -/
+theorem IntKeyLinkedMap_cv_interp (d : Desc K V) (hash : K → Nat) (thr : Nat → Nat) (m : LMap K V) (v : V) :
+    interpCV d Gen.C09IR.IntKeyLinkedMap_cv m v = (LMap.step hash thr d m (.containsValue v)).2.isTrue := by
+  rw [show Gen.C09IR.IntKeyLinkedMap_cv = canonCVa from by decide]; exact (interpCV_correct d hash thr m v).1
+
+/-- IntIntLinkedMap.ContainsValue: the bucket loop visits every bucket exactly once -/
+theorem IntIntLinkedMap_cv_interp (d : Desc K V) (hash : K → Nat) (thr : Nat → Nat) (m : LMap K V) (v : V) :
+    interpCV d Gen.C09IR.IntIntLinkedMap_cv m v = (LMap.step hash thr d m (.containsValue v)).2.isTrue := by
+  rw [show Gen.C09IR.IntIntLinkedMap_cv = canonCVa from by decide]; exact (interpCV_correct d hash thr m v).1
+
+/-- IntFloatLinkedMap.ContainsValue: the bucket loop visits every bucket exactly once -/
+theorem IntFloatLinkedMap_cv_interp (d : Desc K V) (hash : K → Nat) (thr : Nat → Nat) (m : LMap K V) (v : V) :
+    interpCV d Gen.C09IR.IntFloatLinkedMap_cv m v = (LMap.step hash thr d m (.containsValue v)).2.isTrue := by
+  rw [show Gen.C09IR.IntFloatLinkedMap_cv = canonCVa from by decide]; exact (interpCV_correct d hash thr m v).1
+
+/-- LongFloatLinkedMap.ContainsValue: the bucket loop visits every bucket exactly once -/
+theorem LongFloatLinkedMap_cv_interp (d : Desc K V) (hash : K → Nat) (thr : Nat → Nat) (m : LMap K V) (v : V) :
+    interpCV d Gen.C09IR.LongFloatLinkedMap_cv m v = (LMap.step hash thr d m (.containsValue v)).2.isTrue := by
+  rw [show Gen.C09IR.LongFloatLinkedMap_cv = canonCVa from by decide]; exact (interpCV_correct d hash thr m v).1
+
+/-- LongLongLinkedMap.ContainsValue: the bucket loop visits every bucket exactly once -/
+theorem LongLongLinkedMap_cv_interp (d : Desc K V) (hash : K → Nat) (thr : Nat → Nat) (m : LMap K V) (v : V) :
+    interpCV d Gen.C09IR.LongLongLinkedMap_cv m v = (LMap.step hash thr d m (.containsValue v)).2.isTrue := by
+  rw [show Gen.C09IR.LongLongLinkedMap_cv = canonCVa from by decide]; exact (interpCV_correct d hash thr m v).1
+
+/-- StringIntLinkedMap.ContainsValue: the bucket loop visits every bucket exactly once -/
+theorem StringIntLinkedMap_cv_interp (d : Desc K V) (hash : K → Nat) (thr : Nat → Nat) (m : LMap K V) (v : V) :
+    interpCV d Gen.C09IR.StringIntLinkedMap_cv m v = (LMap.step hash thr d m (.containsValue v)).2.isTrue := by
+  rw [show Gen.C09IR.StringIntLinkedMap_cv = canonCVb from by decide]; exact (interpCV_correct d hash thr m v).2
+
+/-- StringLongLinkedMap.ContainsValue: the bucket loop visits every bucket exactly once -/
+theorem StringLongLinkedMap_cv_interp (d : Desc K V) (hash : K → Nat) (thr : Nat → Nat) (m : LMap K V) (v : V) :
+    interpCV d Gen.C09IR.StringLongLinkedMap_cv m v = (LMap.step hash thr d m (.containsValue v)).2.isTrue := by
+  rw [show Gen.C09IR.StringLongLinkedMap_cv = canonCVb from by decide]; exact (interpCV_correct d hash thr m v).2
+
+/-- IntIntLinkedMap.ToBytes / ToObject: the stream calls are the wire model's codec -/
+theorem IntIntLinkedMap_wire_interp (hash : Int → Nat) (m : LMap Int Int) :
+    interpToBytes Gen.C09IR.IntIntLinkedMap_toBytes (m.entries hash) = LMap.toBytes hash false m ∧
+    interpReader Gen.C09IR.IntIntLinkedMap_toObject = (if false then pairsFromBytesF else pairsFromBytes) ∧ Gen.C09IR.IntIntLinkedMap_toObject.puts = true := by
+  refine ⟨?_, ?_, by decide⟩
+  · rw [show Gen.C09IR.IntIntLinkedMap_toBytes = canonWire false from by decide, interpToBytes_correct]; rfl
+  · rw [show Gen.C09IR.IntIntLinkedMap_toObject = canonWire false from by decide, interpReader_correct]
+
+/-- LongLongLinkedMap.ToBytes / ToObject: the stream calls are the wire model's codec -/
+theorem LongLongLinkedMap_wire_interp (hash : Int → Nat) (m : LMap Int Int) :
+    interpToBytes Gen.C09IR.LongLongLinkedMap_toBytes (m.entries hash) = LMap.toBytes hash false m ∧
+    interpReader Gen.C09IR.LongLongLinkedMap_toObject = (if false then pairsFromBytesF else pairsFromBytes) ∧ Gen.C09IR.LongLongLinkedMap_toObject.puts = true := by
+  refine ⟨?_, ?_, by decide⟩
+  · rw [show Gen.C09IR.LongLongLinkedMap_toBytes = canonWire false from by decide, interpToBytes_correct]; rfl
+  · rw [show Gen.C09IR.LongLongLinkedMap_toObject = canonWire false from by decide, interpReader_correct]
+
+/-- IntFloatLinkedMap.ToBytes / ToObject: the stream calls are the wire model's codec -/
+theorem IntFloatLinkedMap_wire_interp (hash : Int → Nat) (m : LMap Int Int) :
+    interpToBytes Gen.C09IR.IntFloatLinkedMap_toBytes (m.entries hash) = LMap.toBytes hash true m ∧
+    interpReader Gen.C09IR.IntFloatLinkedMap_toObject = (if true then pairsFromBytesF else pairsFromBytes) ∧ Gen.C09IR.IntFloatLinkedMap_toObject.puts = true := by
+  refine ⟨?_, ?_, by decide⟩
+  · rw [show Gen.C09IR.IntFloatLinkedMap_toBytes = canonWire true from by decide, interpToBytes_correct]; rfl
+  · rw [show Gen.C09IR.IntFloatLinkedMap_toObject = canonWire true from by decide, interpReader_correct]
+
+/-- LongFloatLinkedMap.ToBytes / ToObject: the stream calls are the wire model's codec -/
+theorem LongFloatLinkedMap_wire_interp (hash : Int → Nat) (m : LMap Int Int) :
+    interpToBytes Gen.C09IR.LongFloatLinkedMap_toBytes (m.entries hash) = LMap.toBytes hash true m ∧
+    interpReader Gen.C09IR.LongFloatLinkedMap_toObject = (if true then pairsFromBytesF else pairsFromBytes) ∧ Gen.C09IR.LongFloatLinkedMap_toObject.puts = true := by
+  refine ⟨?_, ?_, by decide⟩
+  · rw [show Gen.C09IR.LongFloatLinkedMap_toBytes = canonWire true from by decide, interpToBytes_correct]; rfl
+  · rw [show Gen.C09IR.LongFloatLinkedMap_toObject = canonWire true from by decide, interpReader_correct]
+
+end interpreted2
+
 end C09Gen
